@@ -149,6 +149,8 @@ pub enum BodyView {
     Doc(XResp),
     /// certainly not a well-formed response document
     Unparseable,
+    /// arbitrary bytes: the harness does not know whether they parse
+    Unknown,
 }
 
 #[derive(Clone, Debug, PartialEq)]
@@ -308,6 +310,8 @@ pub enum RawBody {
     /// a valid document cut strictly inside
     Truncated(XResp, u32),
     WrongShape(u8),
+    /// anything at all: may or may not be a well-formed document (only used where no model is consulted)
+    Arbitrary(Vec<u8>),
 }
 
 #[derive(Clone, Debug, PartialEq)]
